@@ -49,9 +49,17 @@ def cmp_lines(x, y):
         return False
     if a["status"] == "throw":
         return True
-    for k in ("A", "F", "C", "D", "O"):
+    for k in ("A", "F", "O"):
         if a.get(k) != b.get(k):
             return False
+    if "entry*" in (a.get("A") or "") and "entry*" in (a.get("F") or ""):
+        # a theta table was re-allocated (resize / rebuild): how many entries `consolidate_non_empty` has to move depends on
+        # the slot layout, which depends on the order std::nth_element left in an earlier rebuild (implementation
+        # defined): only the net number of constructed entries is compared
+        if int(a.get("C", 0)) - int(a.get("D", 0)) != int(b.get("C", 0)) - int(b.get("D", 0)):
+            return False
+    elif a.get("C") != b.get("C") or a.get("D") != b.get("D"):
+        return False
     la, lb = lst(a.get("L")), lst(b.get("L"))
     if len(la) != len(lb):
         return False
